@@ -727,6 +727,9 @@ func (fx *FuncCtx) havocLoop(st *State, f *Frame, head *ssa.BasicBlock, body map
 	sort.Strings(keys)
 	for _, k := range keys {
 		p := wl.writes[k]
+		if _, inHeap := st.heap[p.Obj]; !inHeap && p.Obj.Init == nil {
+			continue // a per-site object this path has not allocated (yet): nothing to havoc
+		}
 		old := st.Load(p, nil)
 		nv := fx.havocValue(old, "hv."+p.Obj.Name+fieldPathName(p))
 		st.heap[p.Obj] = fx.inject(st.objValue(p.Obj), p.Path, nv)
